@@ -1,5 +1,7 @@
 package main
 
+import "strings"
+
 // Budgets for C01 ("finishes within a time/memory budget that is generous for the graph's size").
 //
 // Four simulated quantities are bounded, as functions of the input size s = |E| + |V| (input edges
@@ -13,25 +15,78 @@ package main
 //          Largest seen: 13.5k at s=69 (naive cut values, ~(3|E|)^2). Budget 2M + 2000*s^2  (s=69: 11.5M, x850).
 //   depth  live function activations. Largest seen: 587 at s~360 (~3 frames per DFS level).
 //          Budget 20k + 200*s  (>= x100).
-//   ticks  all loop iterations and function entries of the call: catches terminating-but-exponential work.
-//          Largest seen over 8000 specs of the workload distribution: 3.0M for s<20, 35M for s>=20 (network simplex
-//          positioner at s~35; the big graphs of the workload are structured and cheaper). Largest seen: 128k for s<10, 3.0M for 10<=s<20, 35M for s>=20. Budget 50M / 400M / 4G (>= x100).
+//   ticks  all loop iterations and function entries of the call: catches terminating-but-exponential work. The cost of
+//          a returning run depends strongly on the graph family and on the NetworkSimplex positioner (every pivot
+//          recomputes all cut values): 90k ticks for a chain of 45 diamonds, 490M for a random connected graph of 35
+//          nodes. The budget is therefore 100 x the largest value seen in calibration for the spec's
+//          (family, NS positioner?, size bucket) cell - budget_table.go, 102k returning runs - monotone in the size,
+//          floor 20M. Graphs with s >= 45 never get the NS positioner (its slowness "above a few dozen nodes" is
+//          documented behaviour, not a finding).
 //   bytes  growth of the live heap during the call: 2 GiB (largest seen: < 64 MiB).
 const byteBudget = 2 << 30
 
-const budgetRule = "with s = |E|+|V|: loop iterations per function activation <= 2M + 2000*s^2; call depth <= 20k + 200*s; total ticks <= 50M (s<10) / 400M (s<20) / 4G; live-heap growth <= 2 GiB; each >= 100x the largest value observed among returning runs of that size in calibration"
+const budgetRule = "with s = |E|+|V|: loop iterations per function activation <= 2M + 2000*s^2; call depth <= 20k + 200*s; total ticks <= 100 x the calibrated maximum of the spec's (family, NS positioner, size bucket) cell (budget_table.go), floor 20M; live-heap growth <= 2 GiB; each >= 100x the largest value observed among returning runs of that size in calibration"
 
 func sizeOf(nEdges, nNodes int) uint64 { return uint64(nEdges + nNodes) }
 
-func tickBudget(nEdges, nNodes int) uint64 {
-	switch s := sizeOf(nEdges, nNodes); {
-	case s < 10:
-		return 50_000_000
-	case s < 20:
-		return 400_000_000
+// tickBudget without a family: the largest budget any family has for that size.
+func tickBudget(nEdges, nNodes int) uint64 { return tickBudgetFam("", false, nEdges, nNodes) }
+
+var tickBuckets = []int{10, 20, 30, 45, 70, 100, 150, 1 << 30}
+
+func bucketOf(s int) int {
+	for i, b := range tickBuckets {
+		if s < b {
+			return i
+		}
 	}
-	return 4_000_000_000
+	return len(tickBuckets) - 1
 }
+
+func famBase(fam string) string {
+	if i := strings.IndexAny(fam, "/("); i >= 0 {
+		fam = fam[:i]
+	}
+	return fam
+}
+
+// tickBudgetFam: 100 x the largest tick count of a returning run of that (family, NS positioner?, size bucket) seen in
+// calibration (budget_table.go, written by tools/calibrate.py from VERIF_CALIBRATE=1 VERIF_DUMP=... runs), made monotone
+// in the size, with a floor of 20M. A family that calibration never produced gets the maximum over all families.
+func tickBudgetFam(fam string, nsPositioner bool, nEdges, nNodes int) uint64 {
+	bk := bucketOf(nEdges + nNodes)
+	key := famBase(fam)
+	if nsPositioner {
+		key += "+nspos"
+	}
+	row, ok := tickTable[key]
+	var m uint64
+	if ok {
+		for i := 0; i <= bk && i < len(row); i++ {
+			if row[i] > m {
+				m = row[i]
+			}
+		}
+	}
+	if !ok || m == 0 {
+		for k, r := range tickTable {
+			if strings.HasSuffix(k, "+nspos") != nsPositioner && !nsPositioner {
+				continue
+			}
+			for i := 0; i <= bk && i < len(r); i++ {
+				if r[i] > m {
+					m = r[i]
+				}
+			}
+		}
+	}
+	b := 100 * m
+	if b < 20_000_000 {
+		b = 20_000_000
+	}
+	return b
+}
+
 func depthBudget(nEdges, nNodes int) int { return 20_000 + 200*int(sizeOf(nEdges, nNodes)) }
 func frameBudget(nEdges, nNodes int) uint64 {
 	s := sizeOf(nEdges, nNodes)
